@@ -171,7 +171,7 @@ func raceF8(seconds, clients int) {
 	wg.Add(1)
 	go func() {
 		defer wg.Done()
-		ww := &writersWorld{keysWorld: w, conns: map[string]*wconn{}, deleted: map[string]config.Config{}}
+		ww := &writersWorld{keysWorld: w, conns: map[string]*wconn{}, deleted: map[string]config.Config{}, savedEps: map[string]savedShard{}}
 		for n := 1; !stop.Load(); n++ {
 			ww.changeConfig("dr-a", n)
 			time.Sleep(2500 * time.Microsecond)
